@@ -1448,7 +1448,7 @@ var ruleReader = &core.Rule{ID: "R05.2", Min: 8,
 		rc.uses(f, f.Params[0], lim, 0)
 		// the walk's arguments (directly or through a wrapper that forwards them)
 		for _, ws := range m.sitesIn(f) {
-			s.Check(ws.lim == ssa.Value(lim), core.FName(f)+": walk limit is the snapshot", c.Pos(ws.call.Pos()), "same value that sized the read", "the walk is given a limit other than the one that sized the read")
+			s.Check(stripConv(ws.lim) == ssa.Value(lim), core.FName(f)+": walk limit is the snapshot", c.Pos(ws.call.Pos()), "same value that sized the read", "the walk is given a limit other than the one that sized the read")
 			rc.buffer(f, ws.buf, f.Params[0], lim, core.FName(f)+": walk buffer", ws.call.Pos(), 0)
 		}
 		// file entry
@@ -1483,11 +1483,44 @@ type readerCheck struct {
 	n int
 }
 
+// stripConv looks through the conversions that do not change an integer's
+// value: named type <-> underlying type, and widening to int for make / slicing.
+func stripConv(v ssa.Value) ssa.Value {
+	for {
+		switch x := v.(type) {
+		case *ssa.ChangeType:
+			v = x.X
+		case *ssa.Convert:
+			if !core.IsInteger(x.Type()) || !core.IsInteger(x.X.Type()) {
+				return v
+			}
+			v = x.X
+		default:
+			return v
+		}
+	}
+}
+
 func limZeroEdge(b *ssa.BasicBlock, lim ssa.Value, wantZero bool) bool {
 	for _, de := range core.DominatingConds(b) {
 		cond, val := core.StripNot(de.Cond, de.Val)
+		// a predicate method of a named limit type: func (l T) unlimited() bool { return l == 0 }
+		if pc, isCall := cond.(*ssa.Call); isCall {
+			if h := pc.Call.StaticCallee(); h != nil && core.InMod(h) && len(h.Blocks) == 1 && len(h.Params) == 1 && len(pc.Call.Args) == 1 && stripConv(pc.Call.Args[0]) == lim {
+				if rs := core.Returns(h); len(rs) == 1 {
+					if hb, ok := rs[0].Results[0].(*ssa.BinOp); ok && hb.X == ssa.Value(h.Params[0]) && core.IsConstInt(hb.Y, 0) {
+						isZero := (hb.Op == token.EQL && val) || (hb.Op == token.NEQ && !val) || (hb.Op == token.GTR && !val) || (hb.Op == token.LEQ && val)
+						isNonZero := (hb.Op == token.EQL && !val) || (hb.Op == token.NEQ && val) || (hb.Op == token.GTR && val) || (hb.Op == token.LEQ && !val)
+						if wantZero && isZero || !wantZero && isNonZero {
+							return true
+						}
+					}
+				}
+			}
+			continue
+		}
 		bo, ok := cond.(*ssa.BinOp)
-		if !ok || bo.X != lim || !core.IsConstInt(bo.Y, 0) {
+		if !ok || stripConv(bo.X) != lim || !core.IsConstInt(bo.Y, 0) {
 			continue
 		}
 		isZero := (bo.Op == token.EQL && val) || (bo.Op == token.NEQ && !val) || (bo.Op == token.GTR && !val) || (bo.Op == token.LEQ && val)
@@ -1517,7 +1550,7 @@ func (rc *readerCheck) uses(f *ssa.Function, r, lim ssa.Value, depth int) {
 			s.Check(limZeroEdge(call.Block(), lim, true), key, c.Pos(call.Pos()), "io.ReadAll confined to limit == 0", "io.ReadAll on the reader is not confined to the limit == 0 branch: it consumes the whole input")
 		case core.CalleeIs(&call.Call, "io", "ReadFull") && call.Call.Args[0] == r:
 			mk, ok := call.Call.Args[1].(*ssa.MakeSlice)
-			okBuf := ok && mk.Len == lim && mk.Cap == lim
+			okBuf := ok && stripConv(mk.Len) == lim && stripConv(mk.Cap) == lim
 			if ok && !okBuf {
 				if cv, ok := mk.Len.(*ssa.Convert); ok && cv.X == lim && mk.Cap == mk.Len {
 					okBuf = true
@@ -1526,7 +1559,7 @@ func (rc *readerCheck) uses(f *ssa.Function, r, lim ssa.Value, depth int) {
 			s.Check(okBuf && limZeroEdge(call.Block(), lim, false), key, c.Pos(call.Pos()), "io.ReadFull into make([]byte, limit), limit != 0", "the ReadFull buffer is not exactly make([]byte, limit) with the snapshot limit: more than `limit` bytes may be consumed from the reader")
 		case core.CalleeIs(&call.Call, "io", "LimitReader") && call.Call.Args[0] == r:
 			okLim := false
-			if cv, ok := call.Call.Args[1].(*ssa.Convert); ok && cv.X == lim {
+			if cv, ok := call.Call.Args[1].(*ssa.Convert); ok && stripConv(cv.X) == lim {
 				okLim = true
 			}
 			s.Check(okLim, key, c.Pos(call.Pos()), "io.LimitReader(r, limit)", "LimitReader is not bounded by the snapshot limit")
@@ -1538,7 +1571,7 @@ func (rc *readerCheck) uses(f *ssa.Function, r, lim ssa.Value, depth int) {
 					if a == r {
 						ri = i
 					}
-					if a == lim {
+					if stripConv(a) == lim {
 						li = i
 					}
 				}
@@ -1590,7 +1623,7 @@ func (rc *readerCheck) buffer(f *ssa.Function, v, r, lim ssa.Value, key string, 
 					if a == r {
 						ri = i
 					}
-					if a == lim {
+					if stripConv(a) == lim {
 						li = i
 					}
 				}
@@ -1645,7 +1678,7 @@ var ruleLimitSlice = &core.Rule{ID: "R04.1", Min: 5,
 		if lim == nil || wcall == nil {
 			core.Bail("%s: limit load or walk call not found", f.Name())
 		}
-		s.Check(wlim == ssa.Value(lim), "walk limit is the snapshot", c.Pos(wcall.Pos()), "atomic load", "the limit argument of the walk is not the snapshot used for slicing")
+		s.Check(stripConv(wlim) == ssa.Value(lim), "walk limit is the snapshot", c.Pos(wcall.Pos()), "atomic load", "the limit argument of the walk is not the snapshot used for slicing")
 		// the cut may be delegated to a helper h(in, snapshot): the same table is then taken over h's returns
 		var cutFn *ssa.Function
 		var hIn, hLim ssa.Value
@@ -1655,7 +1688,7 @@ var ruleLimitSlice = &core.Rule{ID: "R04.1", Min: 5,
 					if a == ssa.Value(in) {
 						hIn = h.Params[i]
 					}
-					if a == ssa.Value(lim) {
+					if stripConv(a) == ssa.Value(lim) {
 						hLim = h.Params[i]
 					}
 				}
